@@ -63,7 +63,7 @@ def instances(tier):
         out.append({"kind": "connected_policy", "gen": g})
         for call in API_CALLS:
             out.append({"kind": "api_cmd", "gen": g, "call": call})
-        for what in ("heartbeat", "refresh", "error_info"):
+        for what in ("heartbeat", "refresh", "error_info") + (("group_poll",) if g == 4 else ()):
             out.append({"kind": "api_internal", "gen": g, "what": what})
     out.append({"kind": "peer_reset", "gen": 4, "retries": 1})
     out.append({"kind": "peer_reset", "gen": 5, "retries": 0})
@@ -511,6 +511,10 @@ def _api_internal(ctx, p):
             armed["kind"] = "version"
             rig.run(302.0)               # the 300 s heartbeat request is written and its drain fails
             horizon = 320.0
+        elif what == "group_poll":
+            armed["kind"] = "zone_status"
+            rig.run(302.0)               # AT4: the group status poll after 300 s of silence is written and its drain fails
+            horizon = 320.0
         elif what == "refresh":
             armed["kind"] = "ac_status"
             con.push(None) if False else None
@@ -529,7 +533,7 @@ def _api_internal(ctx, p):
         cnt = after.count(armed["kind"])
         ctx.check(armed["hits"] == 1, "api.internal_requests_never_resent", detail={"what": what, "why": "the targeted write was never attempted", "kinds": after})
         # the faulted request itself is never written again; a *new* refresh after the next reconnect is a new request
-        exp = {"heartbeat": 1, "refresh": 2, "error_info": 1}[what]
+        exp = {"heartbeat": 1, "refresh": 2, "error_info": 1, "group_poll": 2}[what]   # group_poll: the poll, and the refresh after the reconnect
         ctx.check(cnt == exp, "api.internal_requests_never_resent", detail={"what": what, "count": cnt, "kinds": after})
         for lab in ("count_le_1_plus_retries", "never_at_or_after_expiry", "resent_first_on_next_connection", "no_resend_after_success",
                     "api.accumulating_commands_once", "api.idempotent_commands_resent_first", "connected_policy.one_second"):
